@@ -384,6 +384,19 @@ func (rc *reportCoordinator) Close() error {
 	return nil
 }
 
+// safeCheckLogs contains a panic raised while fetching or processing perform
+// and stale report logs: run is a bare goroutine, so an escaping panic would
+// take the whole process down
+func (rc *reportCoordinator) safeCheckLogs(ctx context.Context) (err error) {
+	defer func() {
+		if r := recover(); r != nil {
+			err = fmt.Errorf("panic while checking perform and stale report logs: %v", r)
+		}
+	}()
+
+	return rc.checkLogs(ctx)
+}
+
 func (rc *reportCoordinator) run() {
 	cadence := time.Second
 	timer := time.NewTimer(cadence)
@@ -397,7 +410,7 @@ func (rc *reportCoordinator) run() {
 		case <-timer.C:
 			startTime := time.Now()
 
-			if err := rc.checkLogs(ctx); err != nil {
+			if err := rc.safeCheckLogs(ctx); err != nil {
 				if ctx.Err() != nil {
 					return
 				}
